@@ -182,6 +182,13 @@ func wprotOperands(tier string) []*Opnd {
 			vs = append(vs, mkWords(i%2 == 1, v, int64(i%40)-20, 0, uint8(i%6)))
 		}
 	}
+	// integers that exactly fill their words, and one digit more/less (shift-free paths of Int/Rat/Int64)
+	for _, v := range [][]uint64{{BW - 1}, {BW - 1, BW - 1}, {1, BW / 10}, {0, BW / 2}, {5, 0, BW - 2}} {
+		n := int64(len(v)) * DW
+		for _, e := range []int64{n, n - 1, n + 1, n + 19} {
+			vs = append(vs, mkWords(e%2 == 0, v, e, 0, 0))
+		}
+	}
 	for _, n := range []int{31, 64, 100, 128} {
 		for j, p := range natPatterns(n, []uint64{BW - 1, BW / 2}, []uint64{1}) {
 			if j%3 == 0 {
@@ -246,7 +253,9 @@ func wprotLayers(tier string, prop string) []Layer {
 						z2 := buildPre(preFresh, zp, ToNearestEven)
 						pv2, _ := protect(func() { want = op.f(z2, plain) })
 						key := fmt.Sprintf("%s x=%s y=%s u=%s zprec=%d [write-protected operands]", op.name, x, y, uo, zp)
-						c.NonTrivial()
+						if zp == 0 {
+							c.NonTrivial()
+						}
 						switch {
 						case isFault(pv):
 							c.Fail(key, fmt.Sprintf("the operation wrote through an operand or a shared constant: %v", pv))
